@@ -21,7 +21,8 @@ from harness import run_common as rc
 
 META = {
     "rule": "enumerated fault points: project (n = 3..5 python files + requirements.txt) x position i x fault kind "
-            "{invalid UTF-8, NUL byte, syntax error, empty file, transformer raises on file i, file i deleted after listing} "
+            "{invalid UTF-8, NUL byte, syntax error, empty file, declared non-UTF-8 encoding (latin-1 / cp1252 coding cookie, UTF-16 with BOM), "
+            "transformer raises on file i, file i deleted after listing} "
             "x codemod pairs (detector-less + detector-less, detector-less + semgrep-detected, dependency-adding); each fault "
             "point = one faulty CLI run compared with the cached run on the project without file i; non-trivial = the "
             "reference run changes at least one other file; distinct by (project text, pair, kind, i)",
@@ -36,7 +37,31 @@ META = {
 KF_VANISHED = "kf_vanished_file_aborts_semgrep_scan"
 KINDS = ["invalid_utf8", "nul_byte", "syntax_error", "empty_file", "transform_raises", "deleted_after_listing"]
 CONTENT = {"invalid_utf8": b"\xff\xfe x = 1\n", "nul_byte": b"x = 1\x00\n", "syntax_error": b"def (:\n    pass\n", "empty_file": b""}
-UNPROCESSABLE = {"invalid_utf8", "nul_byte", "syntax_error", "transform_raises", "deleted_after_listing"}
+# declared non-UTF-8 source encodings (PEP 263 cookie / BOM): the file keeps its own code (so a codemod that wrongly accepts it
+# has something to change) plus a non-ASCII literal, encoded as declared; none of them decodes as UTF-8, which is what the
+# pipeline reads files as, so each is an unprocessable file for C10
+DECLARED_ENCODINGS = {
+    "cookie_latin1": (b"# -*- coding: latin-1 -*-\n", "latin-1", "LABEL = 'caf\u00e9 cr\u00e8me'\n"),
+    "cookie_cp1252": (b"# coding: cp1252\n", "cp1252", "PRICE = '10 \u20ac \u2013 net'\n"),
+    "utf16_bom": (b"", "utf-16", "NOTE = 'na\u00efve'\n"),
+}
+KINDS = KINDS + sorted(DECLARED_ENCODINGS)
+UNPROCESSABLE = {"invalid_utf8", "nul_byte", "syntax_error", "transform_raises", "deleted_after_listing"} | set(DECLARED_ENCODINGS)
+CONTENT_FAULTS = set(CONTENT) | set(DECLARED_ENCODINGS)          # kinds that replace the file's bytes
+UNDECODABLE = {"invalid_utf8", "nul_byte", "syntax_error"} | set(DECLARED_ENCODINGS)
+
+
+def fault_content(kind, files, bad):
+    """bytes of the bad file under a content fault"""
+    if kind in CONTENT:
+        return CONTENT[kind]
+    cookie, codec, literal = DECLARED_ENCODINGS[kind]
+    data = cookie + (literal + files[bad]).encode(codec)
+    try:
+        data.decode("utf-8")
+    except UnicodeDecodeError:
+        return data
+    raise AssertionError(f"{kind}: the crafted content decodes as UTF-8")
 
 PRELOAD_RAISE = '''
 import os as _os
@@ -148,7 +173,7 @@ def compare(ctx, pt, faulty, ref, root_f, root_r, tree_f, tree_r):
     if not isinstance(ref["report"], dict) or ref["rc"] != 0:
         raise RuntimeError(f"reference run failed: rc={ref['rc']} {ref['stderr'][-300:]}")
     rows_f, rows_r = rc.rows_of_report(faulty["report"], root_f), rc.rows_of_report(ref["report"], root_r)
-    original_bad = files[bad].encode() if kind not in CONTENT else CONTENT[kind]
+    original_bad = files[bad].encode() if kind not in CONTENT_FAULTS else fault_content(kind, files, bad)
     # the bad file itself
     if kind == "deleted_after_listing":
         if bad in tree_f:
@@ -205,7 +230,7 @@ def model_term(pt, rows_f, rows_r, tree_f, tree_r, rc_status):
         adds = "requirements.txt" in r["changed"]
         depid = [A.content("dep:" + dep)] if (dep and adds) else []
         T = [(A.content(files[p]), A.content(tree_r[p]), depid) for p in names if p != bad and changed_by.get(p) == [k]]
-        bad_content = CONTENT.get(kind, files[bad].encode())
+        bad_content = fault_content(kind, files, bad) if kind in CONTENT_FAULTS else files[bad].encode()
         raise_on = [badc(bad_content)] if kind == "transform_raises" else []
         flag = [x for x, _, _ in T]
         # oracle value S(K, bad file): semgrep's verdict on the bad file is observed (the codemod lists it iff its rule matched there)
@@ -217,7 +242,7 @@ def model_term(pt, rows_f, rows_r, tree_f, tree_r, rc_status):
             # with two dependency-adding codemods the intermediate manifest text is not observable; only one adds here
             W.append((A.content(cur_manifest), depid, A.content(man_after)))
             cur_manifest = man_after
-    bad_content = CONTENT.get(kind, files[bad].encode())
+    bad_content = fault_content(kind, files, bad) if kind in CONTENT_FAULTS else files[bad].encode()
     hx_fs = []
     for p, c in files.items():
         if p == bad:
@@ -226,7 +251,7 @@ def model_term(pt, rows_f, rows_r, tree_f, tree_r, rc_status):
             hx_fs.append((A.path(p), badc(bad_content)))
         else:
             hx_fs.append((A.path(p), A.content(c)))
-    hx_bad = [badc(bad_content)] if kind in ("invalid_utf8", "nul_byte", "syntax_error") else []
+    hx_bad = [badc(bad_content)] if kind in UNDECODABLE else []
     ob_fs = [(A.path(p), badc(c) if p == bad else A.content(c)) for p, c in tree_f.items() if p in files]
     ob_rows = [(A.codemod(r["codemod"]), [A.path(p) for p in r["changed"]], [A.path(p) for p in r["failed"]]) for r in rows_f]
     stores = [("SReqTxt", A.path("requirements.txt"), [])]
@@ -339,8 +364,8 @@ def run(ctx: core.Ctx):
             order.append(("ref", key))
         root = R.fresh_dir(kind)
         proj = dict(files)
-        if kind in CONTENT:
-            proj[bad] = CONTENT[kind]
+        if kind in CONTENT_FAULTS:
+            proj[bad] = fault_content(kind, files, bad)
         core.write_tree(root, proj)
         jobs.append(lambda root=root, pair=pair, kind=kind, bad=bad: run_cli_with_fault(R, root, pair, kind, bad))
         order.append(("fault", (pt, root, key)))
@@ -445,8 +470,8 @@ def replay(ctx, body):
     core.write_tree(ref_root, {p: c for p, c in files.items() if p != bad})
     root = R.fresh_dir("fault")
     proj = dict(files)
-    if kind in CONTENT:
-        proj[bad] = CONTENT[kind]
+    if kind in CONTENT_FAULTS:
+        proj[bad] = fault_content(kind, files, bad)
     core.write_tree(root, proj)
     ref = R.run(ref_root, list(pair))
     r = run_cli_with_fault(R, root, pair, kind, bad)
